@@ -4,10 +4,9 @@
   C01 theorems are about (`C01_step_is_scheme` … are statements about `Model.step`).  Generic in the number type; core-only.
 -/
 import BC.Gen.Funcs
-import BC.Lemmas.SrcLoop
 import BC.Model.Traj
 namespace BC.Props.C01
-open BC BC.Gen BC.Model BC.Lemmas
+open BC BC.Gen BC.Model
 set_option linter.unusedSectionVars false
 
 section
@@ -38,31 +37,6 @@ theorem C01_src_barrel_azimuth (s : ShotRaw α) :
 /-- `drag_by_mach`: the curve look-up (C09) times `2.08551e-4 / BC` -/
 theorem C01_src_drag_by_mach [Inhabited α] (t : DragTable α) (bc m : α) :
     Src.drag_by_mach (t.cd m) bc = t.dragByMach bc m := rfl
-
-/-- ONE ITERATION OF THE LOOP: the model's `iterate` is the whole body of the `while` loop of `_integrate`, executed symbolically from
-    the source (`Src.loop_body`), for every loop state (BC/Lemmas/SrcLoop.lean) -/
-theorem C01_src_iterate (r : Run α) (air : α → α × α) (ff : Flags) (sf : Nat) (l : LoopSt α)
-    (hair : ∀ a, r.env.air a = some (air a))
-    (hmax : l.ws.maxDist = cMaxWindDistanceFeet)
-    (hm : nz (air (r.alt0 + l.s.pos.y)).2 = true)
-    (hd : ∀ d, (({ l.flt with currentFlag := fNONE } : TFilter α).shouldRecord sf l.s.pos l.s.vel (air (r.alt0 + l.s.pos.y)).2 l.s.time).2 = some d →
-      nz d.mach = true) :
-    iterate r ff sf l =
-      match (Src.loop_body r air ff sf l).reason with
-      | some reason => .error (.range reason ((Src.loop_body r air ff sf l).limitRow :: (Src.loop_body r air ff sf l).rows).reverse)
-      | none => .ok ⟨(Src.loop_body r air ff sf l).st, (Src.loop_body r air ff sf l).ws, (Src.loop_body r air ff sf l).flt,
-                     (Src.loop_body r air ff sf l).rows, (Src.loop_body r air ff sf l).drag, (Src.loop_body r air ff sf l).mach,
-                     (Src.loop_body r air ff sf l).density, (Src.loop_body r air ff sf l).speed, (Src.loop_body r air ff sf l).lastX⟩ :=
-  SrcLoop.iterate_eq r air ff sf l hair hmax hm hd
-
-/-- the `while` loop: test the source's loop condition, run the source's loop body -/
-theorem C01_src_loop (r : Run α) (ff : Flags) (sf : Nat) (maxRange minStep : α) (fuel : Nat) (l : LoopSt α) :
-    loop r ff sf (maxRange + minStep) maxRange (fuel + 1) l =
-      if Src.loop_condition l.s.pos.x maxRange minStep l.lastX then
-        match iterate r ff sf l with
-        | .error e => .error e
-        | .ok l' => loop r ff sf (maxRange + minStep) maxRange fuel l'
-      else .ok l := SrcLoop.loop_eq r ff sf maxRange minStep fuel l
 
 end
 end BC.Props.C01
